@@ -37,6 +37,7 @@ func runC18(p *core.Prog, r *core.Report) {
 	lossyKeyRule(p, r, "C18.R7")
 	// a layout target resolves the tag it was just given exactly (shared with C06.R6)
 	c06R6(p, r, "C18.R8")
+	c18R9(p, r)
 }
 
 // lossyKeyRule: a cache key that stands for a structured value by a rendering of it (a String()
@@ -999,5 +1000,59 @@ func c18R6(p *core.Prog, r *core.Report) {
 	}
 	if n == 0 {
 		r.Held(rule, "cmd/regsync", "no marker pager", "", "cmd/regsync pages through no listing itself")
+	}
+}
+
+// c18R9: without a parallel setting the entries of a configuration run one after the other, in the
+// order they are written: an entry may read what an earlier one wrote (upstream -> staging -> prod).
+// The throttle only serialises the copies; each entry decides "image matches" before it takes a slot.
+// So a goroutine per entry is started only where the parallel setting asks for it.
+func c18R9(p *core.Prog, r *core.Report) {
+	const rule = "C18.R9"
+	r.Rule(rule, "entries run in configuration order unless parallelism was asked for: in cmd/regsync every go statement whose function reaches the per-entry processing is control-dependent on a test of the Parallel setting (each entry compares source and target before it takes the throttle, so running all entries at once lets a later entry decide on the state before an earlier one wrote)", 1)
+	process := p.Method("cmd/regsync", "rootOpts", "process")
+	if process == nil {
+		r.MissingAnchor(rule, "cmd/regsync.(*rootOpts).process")
+		return
+	}
+	toProcess := reachers(p, map[*ssa.Function]bool{process: true})
+	toProcess[process] = true
+	n := 0
+	lab := map[*ssa.Function]labeler{}
+	for _, fn := range pkgFuncs(p, "cmd/regsync") {
+		for _, b := range fn.Blocks {
+			for _, in := range b.Instrs {
+				g, ok := in.(*ssa.Go)
+				if !ok {
+					continue
+				}
+				tgt := closureOf(g.Call.Value)
+				if tgt == nil {
+					tgt = g.Call.StaticCallee()
+				}
+				if tgt == nil || !toProcess[tgt] {
+					continue
+				}
+				// a goroutine per entry: the go statement sits in a loop of a function that is not itself per-entry processing
+				if !blockInCycle(b) || toProcess[fn] && fn != process && fn.Parent() != nil {
+					continue
+				}
+				n++
+				dep := false
+				for _, ifi := range core.ControlDeps(in) {
+					if dependsOnField(ifi.Cond, modPath("cmd/regsync"), "ConfigDefaults", "Parallel") {
+						dep = true
+					}
+				}
+				if lab[fn] == nil {
+					lab[fn] = labeler{}
+				}
+				r.Check(dep, rule, p.FuncName(fn), lab[fn].next("goroutine per entry"), p.Pos(in.Pos()),
+					"the entries are started concurrently whatever the parallel setting: an entry that reads what an earlier entry writes compares against the old state, reports a match and the run ends successfully with source and target different")
+			}
+		}
+	}
+	if n == 0 {
+		r.Held(rule, "cmd/regsync", "goroutine per entry", "", "no loop starts a goroutine per configured entry")
 	}
 }
